@@ -197,6 +197,24 @@ def handle : Handler
         let r := piteration g a y k tol
         let mg := piterMargin g.n (surferStep g a y) tol k (surferB g a y) 1
         some s!"ok {showRatList r} {showRat mg}") "bad-args"
+  /- model: solver='bicgstab' — the acceptance test of get_pagerank on what BiCGSTAB returned (`iter`, `info`), the direct
+     solution otherwise; answer carries the margin of the test and the decision -/
+  | "c04.bicgstab", [n, ip, ix, dt, a, wk, wkeys, wvals, info, rule, iter, direct] => some <| Option.getD (do
+      let g ← graphRat? n ip ix dt
+      let a ← rat? a
+      let w ← weights? wk wkeys wvals
+      let info ← info.toInt?
+      let rule ← rat? rule
+      let iter ← ratList? iter
+      let direct ← ratList? direct
+      match restartOf g.n w with
+      | .error e => some (showErr e)
+      | .ok y =>
+        let acc := bicgstabAccept g a y info rule iter
+        let sc := bicgstabScores g a y info rule iter direct
+        let mg := Rat.abs (rule * rule - bicgstabRes2sq g a y iter)
+        if vsum sc == 0 then some "nan" else
+        some s!"ok {showRatList (bicgstabBranch g.n sc)} {showRat mg} {if acc then 1 else 0}") "bad-args"
   /- model: solver='RH' in exact arithmetic -/
   | "c04.rh", [n, ip, ix, dt, a, wk, wkeys, wvals, k] => some <| Option.getD (do
       let g ← graphRat? n ip ix dt
@@ -247,14 +265,18 @@ def handle : Handler
       let resid := pushInit g.n rev deg seeds a
       let st0 : PState Rat := { scores := tab g.n fun _ => 1 - a, resid := resid, work := argsortDesc resid }
       let mg := pushMargin g deg a tol fuel st0 1
-      -- least gap between two different initial residuals (order of the work-list)
-      let gaps := resid.flatMap fun x => resid.filterMap fun y => if x == y then none else some (Rat.abs (x - y))
+      -- least gap between the initial residuals of two nodes (order of the work-list): 0 when two nodes have the same exact
+      -- residual — the kernel sorts its own float32 sums, whose order among such nodes is a decision taken on round-off
+      let idx := List.range g.n
+      let gaps := idx.flatMap fun i => idx.filterMap fun j =>
+        if i < j then some (Rat.abs (resid.getD i 0 - resid.getD j 0)) else none
       let mg := gaps.foldl minR mg
       -- the order returned by np.argsort(-residuals): a parameter with the contract "sorting permutation"
       let order ← if ord == "_" then some (argsortDesc resid) else natList? ord
       let isPerm := order.length == g.n && (List.range g.n).all (fun v => order.contains v)
       let sorted := (order.zip (order.drop 1)).all fun (p, q) => decide (resid.getD q 0 ≤ resid.getD p 0)
       if !(isPerm && sorted) then some "contract-unmet argsort" else
+      if pushRaises g deg then some "err ZeroDivisionError" else
       match pushPagerankOrd g rev deg seeds a tol fuel order with
       | none => some "fuel"
       | some r => some s!"ok {showRatList r} {showRat mg}") "bad-args"
